@@ -2,10 +2,9 @@ import ElvisVerif.Lemmas.ShiftProcess
 /-!
 # The API calls of the TCB commute with the shift map (C12)
 
-`open`, `send`, `receive`, `advance_time`, `close`, `abort`, `segments`.  Exclusions, both stated
-as hypotheses: `close` in SYN-RECEIVED (unset `SND.WL2`, F-C12-2), and `segments()` on a SYN-SENT
-TCB whose send window is not 0 (never the case for a TCB made by `open`: the pure-ACK header of a
-data segment would carry the unset `RCV.NXT`).
+`open`, `send`, `receive`, `advance_time`, `close`, `abort`, `segments`.  One exclusion, stated
+as a hypothesis: `segments()` on a SYN-SENT TCB whose send window is not 0 (never the case for a
+TCB made by `open`: the pure-ACK header of a data segment would carry the unset `RCV.NXT`).
 -/
 namespace Elvis.Tcp
 open Elvis.ModCmp
@@ -84,22 +83,19 @@ theorem shift_finIfPending (b : Bool) (s : Tcb) (h : b = true → s.state ≠ .S
   · rw [if_pos hb, if_pos hb]; exact shift_queueFin ka kb s (h hb)
   · rw [if_neg hb, if_neg hb]; rfl
 
-/-- `close` in SYN-RECEIVED moves on with the unset `SND.WL2` (see `Model/TcbShift.lean`): excluded -/
-theorem shift_close (s : Tcb) (h : s.state ≠ .SynReceived) :
-    (s.shift ka kb).close = M.shift ka kb s.close := by
+theorem shift_close (s : Tcb) : (s.shift ka kb).close = M.shift ka kb s.close := by
   unfold Tcb.close
   rw [Tcb.shift_state]
   cases hst : s.state <;> first
-    | exact absurd hst h
     | rfl
     | (have hne : s.state ≠ .SynSent := by rw [hst]; decide
        dsimp only
-       have e := shift_setState_late ka kb s .FinWait1 hne h (by decide) (by decide)
+       have e := shift_setState_late ka kb s .FinWait1 hne (by decide)
        rw [e, shift_queueFin ka kb _ (by intro hh; cases hh)]
        cases Tcb.queueFin _ <;> rfl)
     | (have hne : s.state ≠ .SynSent := by rw [hst]; decide
        dsimp only
-       have e := shift_setState_late ka kb s .LastAck hne h (by decide) (by decide)
+       have e := shift_setState_late ka kb s .LastAck hne (by decide)
        rw [e, shift_queueFin ka kb _ (by intro hh; cases hh)]
        cases Tcb.queueFin _ <;> rfl)
 
